@@ -61,7 +61,11 @@ BAD_NAMES = ("../evil", "../../evil", "/abs/evil", "sub/evil", "sub/../evil",
              "..", ".", "", "evil/", "evil/.", "./evil", "a/b/c/evil",
              "~/evil", "existing.txt", "existingdir", "existingdir/inner.txt",
              "existingdir/", "new.bin", "ünï.bin", "x" * 200, "evil.tmp",
-             "out.bin", ".hidden", "-dash", "sp ace")
+             "out.bin", ".hidden", "-dash", "sp ace",
+             # names that are not in Unicode NFC form / compatibility
+             # look-alikes of files that exist in the working directory
+             "u\u0308ni\u0308.bin", "\u212aconfig", "re\u0301sume\u0301.txt",
+             "\uff2bconfig")
 MEMBERS = ("ok.txt", "sub/ok2.txt", "../escape.txt", "../../escape2.txt",
            "/abs/escape3.txt", "sub/../../escape4.txt", "a/../b.txt", ".",
            "", "./", "..", "dir/", "sub/", "ok.txt", "ünï.txt",
@@ -180,6 +184,9 @@ def _run2(seed, tape, opts, w):
     put("outside_sentinel.txt", b"outside")
     put("recv/existing.txt", b"existing file")
     put("recv/existingdir/inner.txt", b"inner")
+    put("recv/Kconfig", b"the user's own Kconfig")
+    put("recv/\u00fcn\u00ef.bin", b"NFC-named file")
+    put("recv/r\u00e9sum\u00e9.txt", b"NFC-named resume")
     put("recv/evil.tmp", b"unrelated tmp") if tape.choose(3, "tmp0") == 0 \
         else None
     put("send/secret.txt", b"sender side")
@@ -188,7 +195,7 @@ def _run2(seed, tape, opts, w):
         kind = tape.pick(("directory", "directory", "file"), "kind")
         name = tape.pick(("..", ".", "x/..", "existingdir", "existingdir/",
                           "inner.txt", "existing.txt", "evil/", "sub/.",
-                          "") + BAD_NAMES[:8], "name")
+                          "") + BAD_NAMES[:8] + BAD_NAMES[-4:], "name")
         out_mode = tape.pick(("existing_dir", "existing_dir", "unset",
                               "existing_file", "nested_new"), "outmode")
     else:
